@@ -790,7 +790,14 @@ func runSolver(ctx context.Context, sp solverSpec, file string, timeoutS int) so
 	_ = cmd.Run()
 	ms := time.Since(start).Milliseconds()
 	text := out.String()
-	first := strings.TrimSpace(strings.SplitN(text, "\n", 2)[0])
+	first := ""
+	for _, ln := range strings.Split(text, "\n") {
+		// z3 prints warnings (e.g. about an `ite` inside a quantifier pattern) before the answer
+		if ln = strings.TrimSpace(ln); ln != "" && !strings.HasPrefix(ln, "WARNING") {
+			first = ln
+			break
+		}
+	}
 	st := "error"
 	switch first {
 	case "unsat", "sat", "unknown":
@@ -853,28 +860,35 @@ type dischargeOpts struct {
 	agree    bool
 	workers  int
 	focusedS int // limit of the focused-slice stage (default 4 s)
+	sem      chan struct{} // shared limit on queries in flight when several functions are discharged concurrently
 }
 
 func discharge(l *Log, extraPrelude string, obs []*Obligation, o dischargeOpts) {
 	_ = os.MkdirAll(o.dir, 0o755)
 	var wg sync.WaitGroup
-	sem := make(chan struct{}, o.workers)
+	sem := o.sem
+	if sem == nil {
+		sem = make(chan struct{}, o.workers)
+	}
 	for _, ob := range obs {
 		wg.Add(1)
 		sem <- struct{}{}
 		go func(ob *Obligation) {
 			defer wg.Done()
 			defer func() { <-sem }()
-			file := filepath.Join(o.dir, sanitize(ob.Name)+".smt2")
-			if len(file) > 200 {
-				file = file[:180] + fmt.Sprintf("_%d.smt2", ob.index)
+			// the log position makes the name unique: sanitize maps distinct obligation names (`routes[i-1]`,
+			// `routes[i+1]`) to one text, and two queries written to one file would answer for each other
+			file := filepath.Join(o.dir, sanitize(ob.Name))
+			if len(file) > 180 {
+				file = file[:180]
 			}
+			file += fmt.Sprintf("_%d.smt2", ob.index)
 			if !ob.Smoke {
 				// stage 1: focused slice (definitions of the goal's symbols + facts over them); unsat there is final
 				fq := l.buildQuery(ob, extraPrelude, true)
 				ff := strings.TrimSuffix(file, ".smt2") + ".focused.smt2"
 				_ = os.WriteFile(ff, []byte(fq), 0o644)
-				_ = os.WriteFile(ff+".cvc5", []byte(strings.Replace(fq, "(set-logic ALL)", "(set-logic AUFNIRA)", 1)), 0o644)
+				_ = os.WriteFile(ff+".cvc5", []byte(cvc5Variant(fq)), 0o644)
 				ft := 4
 				if o.focusedS > 0 {
 					ft = o.focusedS
@@ -907,7 +921,7 @@ func discharge(l *Log, extraPrelude string, obs []*Obligation, o dischargeOpts) 
 				if gq, ok := groundQuery(q); ok {
 					gf := strings.TrimSuffix(file, ".smt2") + ".ground.smt2"
 					_ = os.WriteFile(gf, []byte(gq), 0o644)
-					_ = os.WriteFile(gf+".cvc5", []byte(strings.Replace(gq, "(set-logic ALL)", "(set-logic AUFNIRA)", 1)), 0o644)
+					_ = os.WriteFile(gf+".cvc5", []byte(cvc5Variant(gq)), 0o644)
 					gt := 6
 					if o.timeoutS < gt {
 						gt = o.timeoutS
@@ -927,10 +941,16 @@ func discharge(l *Log, extraPrelude string, obs []*Obligation, o dischargeOpts) 
 			}
 			_ = os.WriteFile(file, []byte(q), 0o644)
 			// cvc5: a logic without the strings theory, so that the str.* symbols of the prelude are free
-			_ = os.WriteFile(file+".cvc5", []byte(strings.Replace(q, "(set-logic ALL)", "(set-logic AUFNIRA)", 1)), 0o644)
+			_ = os.WriteFile(file+".cvc5", []byte(cvc5Variant(q)), 0o644)
 			ob.SmtFile = file
 			// cvc5 rejects some z3 extensions; queries here use only standard SMT-LIB
-			best, all := race(file, o.timeoutS, o.agree && !ob.Smoke, true)
+			limit := o.timeoutS
+			if ob.Smoke && !o.agree && limit > 3 {
+				// vacuity check: only `unsat` (contradictory hypotheses) matters; a satisfiable set usually makes the
+				// solvers run into the limit, which in the quick tier is kept short
+				limit = 3
+			}
+			best, all := race(file, limit, o.agree && !ob.Smoke, true)
 			ob.Result, ob.Solver, ob.Ms, ob.Output = best.status, best.solver, best.ms, best.out
 			for _, r := range all {
 				if r.status == "unsat" {
@@ -943,4 +963,18 @@ func discharge(l *Log, extraPrelude string, obs []*Obligation, o dischargeOpts) 
 		}(ob)
 	}
 	wg.Wait()
+}
+
+// cvc5Variant: the query as cvc5 reads it. A logic without the strings theory (the str.* symbols of the prelude are
+// free there), and no constant array over the uninterpreted string sort: cvc5 wants a value as the default element,
+// so `((as const (Array Int Str)) str.empty)` becomes a declared array with the defining axiom.
+func cvc5Variant(q string) string {
+	q = strings.Replace(q, "(set-logic ALL)", "(set-logic AUFNIRA)", 1)
+	const ca = "((as const (Array Int Str)) str.empty)"
+	if i := strings.Index(q, ca); i >= 0 {
+		ls := strings.LastIndex(q[:i], "\n") + 1
+		decl := "(declare-const constarr!strempty (Array Int Str))\n(assert (forall ((i!ca Int)) (= (select constarr!strempty i!ca) str.empty)))\n"
+		q = q[:ls] + decl + strings.ReplaceAll(q[ls:], ca, "constarr!strempty")
+	}
+	return q
 }
